@@ -294,7 +294,7 @@ func (wd *world) checkConverged(tr *ftransport) {
 	if strings.HasPrefix(lastKind, "unk") {
 		e.Violate("unknown_type_response_wedges_stream", "%s stream %d: after reading a response of a resource type it does not know (%s) the client never called Recv again (quiescent, stream still up)", tr.name(), st.idx, lastKind)
 	} else if strings.HasPrefix(lastKind, "resp") {
-		e.Violate("reading_resumes", "%s stream %d: at quiescence every watcher has finished, but the client never called Recv again after reading %s", tr.name(), st.idx, lastKind)
+		wd.notReading = append(wd.notReading, fmt.Sprintf("%s stream %d: at quiescence every watcher has finished, but the client never called Recv again after reading %s", tr.name(), st.idx, lastKind))
 	} else if lastKind == "enter" {
 		e.Probe("reading_checked")
 	}
